@@ -111,7 +111,8 @@ void MaxSize::rollFiles()
 bool MaxSize::writeCheck( const detail::LogMsg&, const std::string& msg_text)
 {
 
-   return mCurrentFilesize + msg_text.length() < mMaxFileSize;
+   // the message is written with a trailing newline
+   return mCurrentFilesize + msg_text.length() + 1 <= mMaxFileSize;
 } // MaxSize::writeCheck
 
 
@@ -128,7 +129,7 @@ bool MaxSize::writeCheck( const detail::LogMsg&, const std::string& msg_text)
 void MaxSize::written( const detail::LogMsg&, const std::string& msg_text)
 {
 
-   mCurrentFilesize += msg_text.length();
+   mCurrentFilesize += msg_text.length() + 1;
 
 } // MaxSize::written
 
